@@ -268,8 +268,10 @@ STEP1, STEP2 = 2e-3, 4e-3
 
 def pal_solver_finding(ctx, e):
     """Known finding 'C16-pal-kepler-newton' (while open): reb_tools_solve_kepler_pal is inaccurate for 0.15<=e<0.3,
-    which makes reb_particle_from_pal and the Pal constructors wrong at the 1e-13..1e-4 level."""
-    if 0.15 <= e < 0.3 and ctx.finding_open("C16-pal-kepler-newton"):
+    which makes reb_particle_from_pal and the constructors implemented on the Pal set (m, a, lambda, h, k, ix, iy
+    and their pairs) wrong at the 1e-13..1e-4 level.  The window extends to 0.32 because difference stencils in
+    h, k started just above 0.3 reach into the defective branch."""
+    if 0.15 <= e < 0.32 and ctx.finding_open("C16-pal-kepler-newton"):
         ctx.excluded("C16-pal-kepler-newton")
         return True
     return False
@@ -679,7 +681,7 @@ def run_evolve(case, ctx):
         pars = [p] if jj == j else []
         if order == 2 and case["j2"] == jj:
             pars.append(case["q"])
-        if jj > 0 and fam == "pal" and any(kind_of(x) in ("pal", "mass") and x != "mc" for x in pars):
+        if jj > 0 and any(x in PAL_ARGS for x in pars):      # constructor of m, a or a Pal element involved
             if pal_solver_finding(ctx, sysd["planets"][jj - 1]["e"]):
                 return
 
